@@ -505,7 +505,7 @@ func (e *unitsEngine) callType(fn *ssa.Function, args []ssa.Value, depth int) (u
 }
 
 func checkC08(c *Ctx) {
-	c.Explanation = "Decides the structure of the range, phase-range and rate formulas by a small type system over the SSA of the formula methods: every value carries (unit, binary exponent, decimal exponent, sign); field types come from the oracle (whole ms 2^0, fractional 2^-10, fine range 2^-24/2^-29, fine phase 2^-29/2^-31, rough rate m/s, fine rate 1e-4 m/s); shifts and multiplications by powers of two or ten move the exponents, + and | need identical types (| additionally disjoint bit ranges of plain shifted fields, so a carry or borrow cannot be lost), the light-millisecond constant turns plain ms into m, division by the wavelength turns m into cycles and m/s into Hz, *-1 flips the sign.  (R1) every exported formula method of MSM4 and MSM7 has its declared result type and the two families agree; (R2) each 'invalid' constant equals -2^(w-1) for the width w that the layout oracle gives its field (255 for the 8-bit rough range), a formula returns zero only under a rough-invalid (or missing satellite) test, and a fine-invalid test replaces the delta by 0; (R3) constants: OneLightMillisecond*1000 == SpeedOfLightMS == 299792458, TwoToThePowerN == 2^N; (R4) the four signal-frequency tables equal the oracle table over all ids 1..32, wavelength = c/f with a zero guard, and GetSignalWavelength dispatches the four constellation names. (R2, marker tests) every comparison of a field that has an invalid marker is an (in)equality with exactly that marker, so no valid value is treated as invalid; (R5) the cell, header and formula packages keep no package-level storage that is written outside initialisers, so the cells a formula reads belong to their own message; (R6) the shared scale helpers in utils have no branch that depends on an argument value, so no value is special-cased after normalisation."
+	c.Explanation = "Decides the structure of the range, phase-range and rate formulas by a small type system over the SSA of the formula methods: every value carries (unit, binary exponent, decimal exponent, sign); field types come from the oracle (whole ms 2^0, fractional 2^-10, fine range 2^-24/2^-29, fine phase 2^-29/2^-31, rough rate m/s, fine rate 1e-4 m/s); shifts and multiplications by powers of two or ten move the exponents, + and | need identical types (| additionally disjoint bit ranges of plain shifted fields, so a carry or borrow cannot be lost), the light-millisecond constant turns plain ms into m, division by the wavelength turns m into cycles and m/s into Hz, *-1 flips the sign.  (R1) every exported formula method of MSM4 and MSM7 has its declared result type and the two families agree; (R2) each 'invalid' constant equals -2^(w-1) for the width w that the layout oracle gives its field (255 for the 8-bit rough range), a formula returns zero only under a rough-invalid (or missing satellite) test, and a fine-invalid test replaces the delta by 0; (R3) constants: OneLightMillisecond*1000 == SpeedOfLightMS == 299792458, TwoToThePowerN == 2^N; (R4) the four signal-frequency tables equal the oracle table over all ids 1..32, wavelength = c/f with a zero guard, and GetSignalWavelength dispatches the four constellation names. (R2, marker tests) every comparison of a field that has an invalid marker is an (in)equality with exactly that marker, so no valid value is treated as invalid; (R5) the cell, header and formula packages keep no package-level storage that is written outside initialisers, so the cells a formula reads belong to their own message; (R6) the shared scale helpers in utils have no branch that depends on an argument value, so no value is special-cased after normalisation. R4 also requires that GetSignalWavelength branches on the constellation only, never on the signal id."
 	c.NotDecided = "floating-point rounding; wrap-around for negative totals (excluded by the property's precondition); whether the documented frequency table itself matches RTCM for every BeiDou band (taken as documented)."
 	P := c.P
 	or, err := loadUnitsOracle(c.Verifdir)
@@ -870,6 +870,24 @@ func checkFrequencyTables(c *Ctx, rule string, or *unitsOracle) {
 					}
 				}
 			}
+		}
+	}
+	// the dispatcher chooses by constellation only: a guard on the signal id in front of the tables
+	// (a range check, say) overrides them for some ids
+	if len(disp.Params) == 2 {
+		idFree := true
+		eachInstr(disp, func(ins ssa.Instruction) {
+			ifi, ok := ins.(*ssa.If)
+			if !ok || blockDead(ifi.Block()) {
+				return
+			}
+			if dependsOnParam(ifi.Cond, disp, 12, map[*ssa.Parameter]bool{disp.Params[0]: true}) {
+				idFree = false
+				c.Fail(rule, "dispatch-by-constellation-only", ifi.Pos(), "refuted", "GetSignalWavelength branches on the signal id before consulting the constellation's table: some ids get a wavelength that the table does not give")
+			}
+		})
+		if idFree {
+			c.OK(rule, "dispatch-by-constellation-only", disp.Pos(), "no branch of the dispatcher depends on the signal id")
 		}
 	}
 	var cons []string
